@@ -4,6 +4,7 @@ import (
 	"fmt"
 	"go/types"
 	"sort"
+	"strings"
 
 	"golang.org/x/tools/go/ssa"
 )
@@ -12,6 +13,10 @@ type hidRec struct {
 	kind int // 0 initial, 1 havoc, 2 merge
 	c    Term
 	a, b int
+	// havoc records: the state the havoc started from (stable families are carried over from it)
+	prev     int
+	prevHeap map[string]Term
+	frontier Term
 }
 
 // ---------------------------------------------------------------------------
@@ -35,11 +40,29 @@ func (u *Unit) resolveHid(fam string, hid int, sortv string) Term {
 		t = u.ctx.Const(fam+"@pre", sortv)
 	case 1:
 		t = u.ctx.Const(fmt.Sprintf("%s@h%d", fam, hid), sortv)
+		if d := u.w.stableIn(fam, u.fn); d != nil && r.prevHeap != nil {
+			// stable family: cells of objects allocated before the havoc are unchanged (and still
+			// refer to objects allocated before it)
+			prev, ok := r.prevHeap[fam]
+			if !ok {
+				prev = u.resolveHid(fam, r.prev, sortv)
+			}
+			body := fmt.Sprintf("(= (select %s p) (select %s p))", t.S, prev.S)
+			if d.ptr[fam] {
+				body = fmt.Sprintf("(and %s (< (objof (select %s p)) %s))", body, t.S, r.frontier.S)
+			}
+			u.ctx.AssertAlways(Term{fmt.Sprintf("(forall ((p Int)) (! (=> (< (objof p) %s) %s) :pattern ((select %s p))))", r.frontier.S, body, t.S), SBool}, "stable-family")
+			u.note("stable " + d.text + ": every store to it in the loaded program targets an object allocated by the storing function (checked mechanically; reflection/unsafe/bodyless library writers are not covered), so whole-heap havocs keep it for objects allocated earlier")
+		}
 	case 2:
 		a := u.resolveHid(fam, r.a, sortv)
 		b := u.resolveHid(fam, r.b, sortv)
 		if a.S == b.S {
 			t = a
+		} else if strings.Contains(r.c.S, "!q") {
+			// the merge condition mentions a quantifier-bound variable (state merge inside a spec call
+			// evaluated under a quantifier): no global definition is possible, keep the ite inline
+			t = Ite(r.c, a, b)
 		} else {
 			t = u.ctx.Const(fmt.Sprintf("%s@m%d", fam, hid), sortv)
 			u.ctx.AssertAlways(Eq(t, Ite(r.c, a, b)), "heap-merge")
@@ -132,8 +155,9 @@ func (u *Unit) havocAll(st *State, why string) {
 		keepMaps = append(keepMaps, km)
 	}
 	sort.Slice(keepMaps, func(i, j int) bool { return keepMaps[i].ref.S < keepMaps[j].ref.S })
+	prevHeap, prevHid, frontier := st.Heap, st.Hid, st.allocTerm()
 	st.Heap = map[string]Term{}
-	st.Hid = u.newHid(hidRec{kind: 1})
+	st.Hid = u.newHid(hidRec{kind: 1, prev: prevHid, prevHeap: prevHeap, frontier: frontier})
 	defer func() {
 		for _, k := range keep {
 			u.storeAt(st, k.ptr, k.elem, k.val)
